@@ -8,8 +8,9 @@ PID = 'C18'
 TRUSTED = ['Tier H scanner coq/Model/Lexer.v tied to the real REGEX_GCODE_LINE / GcodeParser by exhaustive comparison of all 13 groups and the '
            'derived attributes on every string up to the stated length over a 14-symbol class alphabet, plus random long lines (vm_compute digests)',
            'modelled, not verified: Python\'s `re` engine (the scanner re-implements the regex\'s priority order and backtracking)']
-ASSUMPTIONS = ['lossless / progress are proved for all strings; stability of the normalised command string and the checksum round trip are '
-               'checked on the implementation by the oracle of this check (exhaustive small scope + random), not yet proved in Coq']
+ASSUMPTIONS = ['lossless / progress, stability of the command string and the checksum round trip are proved on the scanner model for all strings; the '
+               'model is compared with the real regex and parser on all strings of the stated scope plus random lines, and the oracle checks the same '
+               'statements on the implementation']
 
 
 def correspondence(ctx):
